@@ -65,9 +65,9 @@ PROPS = {
         level_note=LEMMA_NOTE + COMMON_NOTE,
     ),
     'C04': dict(
-        components=[('kani', 'alphabet_leaf', {}), (V, 'l2_bisim', {}), (V, 'u1_forward', {})] + U1 + [(V, 'u3_dfa', {}), (V, 'u3_nnfa', {}), (V, 'u3_cnfa', {}), (V, 'u4_nnfa_build', {}), ('kani', 'nnfa_leaf', {}), b('bisim', families='small,abc,ci,wide'), b('bigkinds'),
+        components=[('kani', 'alphabet_leaf', {}), (V, 'l2_bisim', {}), (V, 'u1_forward', {})] + U1 + [(V, 'u3_dfa', {}), (V, 'u3_nnfa', {}), (V, 'u3_cnfa', {}), (V, 'u4_nnfa_build', {}), (V, 'u6_build', {}), ('kani', 'nnfa_leaf', {}), b('bisim', families='small,abc,ci,wide'), b('bigkinds'),
                          sem('std,lf,ll', 'find,iter,ov,anch,earliest', families='small,abc', cfgs='all', rel='kind', thorough_aspects='find,iter,ov,anch,earliest,spans')],
-        level_text='Proof (Verus): every search API is a function of the abstract automaton only (find_spec / ov_remaining over AC), so two representations with equal abstract behaviour give equal results for every haystack; the accessors of each representation are proved to compute the abstract transition function of that representation (u3_dfa, u3_nnfa: a densified state answers exactly like its sparse chain; u3_cnfa: the dense, one-transition and sparse encodings all answer c_lookup). Bounded stand-in (exhaustive over haystacks per pattern list): product BFS bisimulation of the reference noncontiguous NFA with every contiguous/DFA/dense-depth/byte-class configuration over all 256 bytes from both start states; top-level vs low-level use compared through the API. Builder side (Verus, u4_nnfa_build): the mutators with which the noncontiguous compiler writes the automaton — add_transition, add_match, copy_matches, alloc_state/transition/match, next_link — keep the builder-time representation invariant bwf (sorted acyclic sparse chains, links in bounds, chains of different states disjoint, forward match links) and change the abstract view in exactly one point: the added edge is the edge that is found and no other byte of any state changes its answer; a match is appended last and a copied list follows the own list in source order, once each; overflow of the id space is an Err. The compiler passes that call them are out of reach (bounded only).',
+        level_text='Proof (Verus): every search API is a function of the abstract automaton only (find_spec / ov_remaining over AC), so two representations with equal abstract behaviour give equal results for every haystack; the accessors of each representation are proved to compute the abstract transition function of that representation (u3_dfa, u3_nnfa: a densified state answers exactly like its sparse chain; u3_cnfa: the dense, one-transition and sparse encodings all answer c_lookup). Bounded stand-in (exhaustive over haystacks per pattern list): product BFS bisimulation of the reference noncontiguous NFA with every contiguous/DFA/dense-depth/byte-class configuration over all 256 bytes from both start states; top-level vs low-level use compared through the API. Builder side (Verus, u4_nnfa_build): the mutators with which the noncontiguous compiler writes the automaton — add_transition, add_match, copy_matches, alloc_state/transition/match, next_link — keep the builder-time representation invariant bwf (sorted acyclic sparse chains, links in bounds, chains of different states disjoint, forward match links) and change the abstract view in exactly one point: the added edge is the edge that is found and no other byte of any state changes its answer; a match is appended last and a copied list follows the own list in source order, once each; overflow of the id space is an Err. The compiler passes that call them are out of reach (bounded only). Configuration plumbing (Verus, u6_build): every setter of AhoCorasickBuilder and of the three automaton builders it owns (real fields) is proved to set exactly its option in every builder that reads it, and to keep builder_inv (the three builders agree on match kind / case folding / prefilter, the DFA builder has the start kind the front end gates with) — in every order of calls; AhoCorasickBuilder::build / build_auto: an explicitly requested kind is the kind of the automaton inside or the build fails, the automatic rule (DFA iff start kind is not Both and at most 100 patterns and the DFA builds, else contiguous, else noncontiguous), reported kind = kind of the wrapped automaton, start kind as given and equal to the one a DFA inside supports; what the three build routines construct is an assumed contract.',
         level_note=COMMON_NOTE + ' The lifting "bisimilar automata => equal scan / find_spec / ov_list" (L-bisim) is proved in unit l2_bisim; the bisimulation itself is established per pattern list by the bounded product BFS.',
     ),
     'C05': dict(
@@ -113,8 +113,8 @@ PROPS = {
         level_note=COMMON_NOTE + ' Output equality with the splice definition is decided by the bounded stand-in only (the closure is opaque to the proof). The &str driver try_replace_all_with is proved (u7_replace_str) over trusted stubs for the str / String operations (is_char_boundary, slicing at boundaries, push_str): it never slices off a character boundary, skips exactly the matches with an end inside a character, and hands the closure the match text.',
     ),
     'C13': dict(
-        components=[(V, 'u6_gates', {})] + [('kani', 'gates_leaf', {})] + [(V, 'u1_search', {}), (V, 'u1_overlap', {}), (V, 'u1_iter', {}), b('cfgprod')],
-        level_text='Proof (Verus): try_find_fwd / try_find_overlapping_fwd / FindIter::new fail exactly when start_state has no start state for the requested anchoring (and, for overlapping, when the match kind is not standard), independent of the haystack; a constructed FindIter never hits its expect. Exhaustive stand-in: the full finite product match kind x start kind x anchoring x engine kind x 17 APIs x empty-pattern on the real code.',
+        components=[(V, 'u6_gates', {}), (V, 'u6_build', {})] + [('kani', 'gates_leaf', {})] + [(V, 'u1_search', {}), (V, 'u1_overlap', {}), (V, 'u1_iter', {}), b('cfgprod')],
+        level_text='Proof (Verus): try_find_fwd / try_find_overlapping_fwd / FindIter::new fail exactly when start_state has no start state for the requested anchoring (and, for overlapping, when the match kind is not standard), independent of the haystack; a constructed FindIter never hits its expect. Exhaustive stand-in: the full finite product match kind x start kind x anchoring x engine kind x 17 APIs x empty-pattern on the real code. Configuration plumbing (Verus, u6_build): every setter of AhoCorasickBuilder and of the three automaton builders it owns (real fields) is proved to set exactly its option in every builder that reads it, and to keep builder_inv (the three builders agree on match kind / case folding / prefilter, the DFA builder has the start kind the front end gates with) — in every order of calls; AhoCorasickBuilder::build / build_auto: an explicitly requested kind is the kind of the automaton inside or the build fails, the automatic rule (DFA iff start kind is not Both and at most 100 patterns and the DFA builds, else contiguous, else noncontiguous), reported kind = kind of the wrapped automaton, start kind as given and equal to the one a DFA inside supports; what the three build routines construct is an assumed contract.',
         level_note=COMMON_NOTE,
     ),
     'C14': dict(
@@ -145,13 +145,13 @@ PROPS = {
         level_note=COMMON_NOTE + ' Writer-fault half: try_stream_replace_all_with propagates every error with `?` and never panics (u2_replace); that the bytes written before a writer fault are a prefix of the fault-free output is decided by the bounded companion only.',
     ),
     'C19': dict(
-        components=[(V, 'u1_search', {}), (V, 'u1_overlap', {}), (V, 'u3_nnfa', {}), (V, 'u3_cnfa', {}), (V, 'u3_dfa', {}), (V, 'u7_replace', {}), (V, 'u7_replace_str', {}), b('faildepth'), b('repr-nnfa'), b('repr-cnfa'), b('scaling')],
-        level_text='Proof (Verus): both search loops perform one next_state call per iteration and every iteration strictly increases the position (decreases clauses), so at most one transition per byte. The real next_state of both NFAs is proved to terminate with the potential argument behind the amortised bound: failure steps + rank(result) <= rank(state) + 1 for any rank function that strictly decreases along the failure link of every state with an undefined transition and grows by at most one along a transition (tagged [C19] obligations in u3_nnfa / u3_cnfa; such a rank — breadth-first depth — is exhibited on every real NFA of the bounded space by repr-nnfa / repr-cnfa); next_state of the DFA is a single table lookup without a loop (u3_dfa). Bounded stand-in through hooks: depth(fail(s)) < depth(s) for every state of the noncontiguous NFA; counters: transitions <= span length, failure traversals <= transitions (NFAs), zero (DFA).',
+        components=[(V, 'u1_search', {}), (V, 'u1_overlap', {}), (V, 'u2_stream', {'only_tagged': '1'}), (V, 'u3_nnfa', {}), (V, 'u3_cnfa', {}), (V, 'u3_dfa', {}), (V, 'u7_replace', {}), (V, 'u7_replace_str', {}), b('faildepth'), b('repr-nnfa'), b('repr-cnfa'), b('scaling')],
+        level_text='Proof (Verus): both search loops perform one next_state call per iteration and every iteration strictly increases the position (decreases clauses), so at most one transition per byte. The real next_state of both NFAs is proved to terminate with the potential argument behind the amortised bound: failure steps + rank(result) <= rank(state) + 1 for any rank function that strictly decreases along the failure link of every state with an undefined transition and grows by at most one along a transition (tagged [C19] obligations in u3_nnfa / u3_cnfa; such a rank — breadth-first depth — is exhibited on every real NFA of the bounded space by repr-nnfa / repr-cnfa); next_state of the DFA is a single table lookup without a loop (u3_dfa). Bounded stand-in through hooks: depth(fail(s)) < depth(s) for every state of the noncontiguous NFA; counters: transitions <= span length, failure traversals <= transitions (NFAs), zero (DFA). The stream iterator (u2_stream, tagged [C19] obligation, the only obligations of that unit counted here): a refill of the roll buffer leaves the position in the stream and the automaton state untouched, so no stream byte is scanned twice.',
         level_note=COMMON_NOTE,
     ),
     'C20': dict(
-        components=[('kani', 'primitives_leaf', {}), (V, 'u1_forward', {}), (V, 'u3_dfa', {}), (V, 'u3_nnfa', {}), (V, 'u3_cnfa', {}), (V, 'u4_nnfa_build', {})] + [b('meta')],
-        level_text='Proof (Kani, complete over usize): SmallIndex/StateID/PatternID::new fail exactly above their limit and round-trip the value (size limits surface as errors, not panics). Proof (Verus): the metadata accessors patterns_len / pattern_len / min_pattern_len / max_pattern_len / match_kind of the three automaton types return the stored fields (u3_dfa, u3_nnfa, u3_cnfa) and the two forwarding impls (&A, the Arc<dyn> of the front end) forward each accessor to the same-named accessor (u1_forward). Bounded stand-in: shape-diverse pattern collections x option combinations: no panic, requested kind returned, automatic kind rule, metadata mirrors input, ids are input positions. Builder side (Verus, u4_nnfa_build): the mutators with which the noncontiguous compiler writes the automaton — add_transition, add_match, copy_matches, alloc_state/transition/match, next_link — keep the builder-time representation invariant bwf (sorted acyclic sparse chains, links in bounds, chains of different states disjoint, forward match links) and change the abstract view in exactly one point: the added edge is the edge that is found and no other byte of any state changes its answer; a match is appended last and a copied list follows the own list in source order, once each; overflow of the id space is an Err. The compiler passes that call them are out of reach (bounded only).',
+        components=[('kani', 'primitives_leaf', {}), (V, 'u1_forward', {}), (V, 'u3_dfa', {}), (V, 'u3_nnfa', {}), (V, 'u3_cnfa', {}), (V, 'u4_nnfa_build', {}), (V, 'u6_build', {})] + [b('meta')],
+        level_text='Proof (Kani, complete over usize): SmallIndex/StateID/PatternID::new fail exactly above their limit and round-trip the value (size limits surface as errors, not panics). Proof (Verus): the metadata accessors patterns_len / pattern_len / min_pattern_len / max_pattern_len / match_kind of the three automaton types return the stored fields (u3_dfa, u3_nnfa, u3_cnfa) and the two forwarding impls (&A, the Arc<dyn> of the front end) forward each accessor to the same-named accessor (u1_forward). Bounded stand-in: shape-diverse pattern collections x option combinations: no panic, requested kind returned, automatic kind rule, metadata mirrors input, ids are input positions. Builder side (Verus, u4_nnfa_build): the mutators with which the noncontiguous compiler writes the automaton — add_transition, add_match, copy_matches, alloc_state/transition/match, next_link — keep the builder-time representation invariant bwf (sorted acyclic sparse chains, links in bounds, chains of different states disjoint, forward match links) and change the abstract view in exactly one point: the added edge is the edge that is found and no other byte of any state changes its answer; a match is appended last and a copied list follows the own list in source order, once each; overflow of the id space is an Err. The compiler passes that call them are out of reach (bounded only). Configuration plumbing (Verus, u6_build): every setter of AhoCorasickBuilder and of the three automaton builders it owns (real fields) is proved to set exactly its option in every builder that reads it, and to keep builder_inv (the three builders agree on match kind / case folding / prefilter, the DFA builder has the start kind the front end gates with) — in every order of calls; AhoCorasickBuilder::build / build_auto: an explicitly requested kind is the kind of the automaton inside or the build fails, the automatic rule (DFA iff start kind is not Both and at most 100 patterns and the DFA builds, else contiguous, else noncontiguous), reported kind = kind of the wrapped automaton, start kind as given and equal to the one a DFA inside supports; what the three build routines construct is an assumed contract.',
         level_note=COMMON_NOTE + ' The builders themselves are beyond Verus/Kani here (bounded stand-in only).',
     ),
 }
